@@ -113,7 +113,7 @@ def name_programs(thorough):
             t = space.obj("InPkg", [space.field("a", S)], "com.verif.%s.inner" % n)
             u = space.obj("User", [space.field("r", space.ref("InPkg", "com.verif.%s.inner" % n))], "com.verif.other")
             progs.append(Program("nm_pkg_%s" % safe, "package segment named `%s`" % n, space.ir([t, u]), cls="name:package:" + n))
-    for n in IDENTS + [k.capitalize() for k in ("self", "type", "box", "async", "try")]:
+    for n in IDENTS + [k.capitalize() for k in ("self", "type", "box", "async", "try") if k.capitalize() not in IDENTS]:
         types = [space.obj(n, [space.field("a", S), space.field("again", space.opt(space.ref(n, PKG)))], PKG),
                  space.obj("Uses" + n, [space.field("x", space.ref(n, PKG)), space.field("xs", space.lst(space.ref(n, PKG))), space.field("m", space.mp(S, space.ref(n, PKG)))], PKG),
                  space.union("Pick" + n, [space.field("it", space.ref(n, PKG)), space.field("s", S), space.field("o", space.opt(I))], PKG),
@@ -219,6 +219,10 @@ def run(a, rep):
     progs = []
     sp, shs = shape_programs(thorough)
     progs += sp + param_programs() + name_programs(thorough) + [recursion_program()] + package_programs() + service_programs() + config_programs()
+    ids = [p.pid for p in progs]
+    dup = sorted({i for i in ids if ids.count(i) > 1})
+    if dup:
+        raise SystemExit("MACHINERY-FAILURE: duplicate C03 program ids %s" % dup)
     if a.replay_case:
         progs = [p for p in progs if p.pid == a.replay_case.get("program")]
     root = os.path.join(H.WORK, "c03-" + a.tier)
